@@ -167,6 +167,10 @@ def compare_view(rec, e, view, seed, typemap=None, mode="eager", daqmx=None):
         else:
             if got.get("data") not in ([], None):
                 diffs.append(("data:" + c, [], got.get("data")))
+    if view.get("api"):
+        diffs.append(("api", [], view["api"]))
+    if view.get("version") != 4713:
+        diffs.append(("version", 4713, view.get("version")))       # the encoder writes every segment as version 4713
     extra = set(view["chans"]) - set(lens)
     if extra:
         diffs.append(("invented-channels", [], sorted(extra)))
